@@ -407,6 +407,19 @@ func runC19(col *Collector, tier string, seed int64) {
 			tags = append(tags, "every-split")
 		}
 	}
+	// always: lines longer than a buffered writer's 4096 bytes, with colour sequences inside, handed over in ONE write
+	// (such a write bypasses the buffer: the decorator sees the caller's own slice), alone and between short lines
+	for _, size := range []int{4090, 4096, 4097, 5000, 9000, 20000} {
+		long := bytes.Repeat([]byte("0123456789"), size/10)
+		copy(long[size/2:], "\x1b[31mred\x1b[0m")
+		copy(long[10:], "\x1b[1;32m")
+		for _, st := range [][]byte{append(append([]byte{}, long...), '\n'), append(append([]byte("short\n"), long...), []byte("\nlast\n")...)} {
+			for _, f := range []string{output.FormatPrefixed, output.FormatRaw} {
+				specs = append(specs, outSpec{streams: [][]byte{st}, chunks: [][][]byte{{st}}, format: f})
+				tags = append(tags, "long-coloured-line")
+			}
+		}
+	}
 	n := 250
 	if tier == "thorough" {
 		n = 5000
